@@ -314,11 +314,15 @@ func (ls *LState) RegisterModule(name string, funcs map[string]LGFunction) LValu
 		if newmodtb, ok := newmod.(*LTable); !ok {
 			ls.RaiseError("name conflict for module(%v)", name)
 		} else {
-			for fname, fn := range funcs {
-				newmodtb.RawSetString(fname, ls.NewFunction(fn))
-			}
 			ls.SetField(tb, name, newmodtb)
-			return newmodtb
+			mod = newmodtb
+		}
+	}
+	// the functions go into the table of the module whether it is new or was there already
+	// (luaI_openlib in lauxlib.c): a second registration adds to the first
+	if modtb, ok := mod.(*LTable); ok {
+		for fname, fn := range funcs {
+			modtb.RawSetString(fname, ls.NewFunction(fn))
 		}
 	}
 	return mod
